@@ -36,7 +36,8 @@ impl<'ast> Visit<'ast> for V {
     fn visit_trait_item_fn(&mut self, f: &'ast syn::TraitItemFn) { self.func.push(f.sig.ident.to_string()); syn::visit::visit_trait_item_fn(self, f); self.func.pop(); }
     fn visit_expr_method_call(&mut self, m: &'ast syn::ExprMethodCall) {
         let n = m.method.to_string();
-        if PANICKING_METHODS.contains(&n.as_str()) { self.add(&n, norm(&m.receiver)); }
+        // `expect(msg)` and `unwrap()` are the same site (the message is not part of its identity)
+        if PANICKING_METHODS.contains(&n.as_str()) { self.add(if n == "expect" { "unwrap" } else { &n }, norm(&m.receiver)); }
         syn::visit::visit_expr_method_call(self, m);
     }
     fn visit_expr_call(&mut self, c: &'ast syn::ExprCall) {
